@@ -24,6 +24,8 @@ fn uri_alphabet() -> Vec<&'static str> {
         "http://zv.example/1st",
         "http://zv.example/xml",
         "http://zv.example/\u{fc}n\u{ef}",
+        "http://zv.example/old/2006",
+        "http://zv.example/new/2006",
     ]
 }
 
@@ -130,7 +132,7 @@ fn states(tier: &str) -> Vec<(State, BTreeMap<&'static str, String>)> {
                     continue;
                 }
                 for order in permutations(&[1, 2]) {
-                    let ways_list: Vec<[Way; 2]> = if tier == "quick" { vec![[Way::RootXmlns, Way::NestedXmlns]] } else { vec![[Way::RootXmlns, Way::RootXmlns], [Way::RootXmlns, Way::NestedXmlns], [Way::NestedXmlns, Way::TargetOnly], [Way::TargetOnly, Way::RootXmlns]] };
+                    let ways_list: Vec<[Way; 2]> = if tier == "quick" { vec![[Way::RootXmlns, Way::NestedXmlns], [Way::NestedXmlns, Way::NestedXmlns], [Way::TargetOnly, Way::TargetOnly]] } else { vec![[Way::RootXmlns, Way::RootXmlns], [Way::RootXmlns, Way::NestedXmlns], [Way::NestedXmlns, Way::TargetOnly], [Way::TargetOnly, Way::RootXmlns], [Way::NestedXmlns, Way::NestedXmlns], [Way::TargetOnly, Way::TargetOnly]] };
                     for ws in ways_list {
                         push(vec![a.to_string(), b.to_string(), c.to_string()], vec![Way::RootXmlns, ws[0], ws[1]], order.clone(), "triple");
                     }
@@ -147,10 +149,42 @@ fn states(tier: &str) -> Vec<(State, BTreeMap<&'static str, String>)> {
         let rev: Vec<usize> = (1..n).rev().collect();
         push(fam, ways, rev, "equal-abbreviation-family");
     }
+    // one target namespace spread over two imported files, a third namespace met in between
+    let mut spread: Vec<(State, BTreeMap<&'static str, String>)> = vec![];
+    for (order, with_between) in [(0, true), (1, true), (0, false), (1, false)] {
+        let x = "http://zv.example/spread/x";
+        let y = "http://zv.example/spread/y";
+        let z = "http://zv.example/spread/z";
+        let mut b = XsdFile { name: "b.xsd".into(), tns: y.into(), prefixes: vec![("own".into(), y.into()), ("z".into(), z.into())], default_ns: None, imports: vec![], comps: vec![complex("YOne", vec![el("V", TypeRef::b("string"))])] };
+        let c = XsdFile { name: "c.xsd".into(), tns: z.into(), prefixes: vec![("own".into(), z.into())], default_ns: None, imports: vec![], comps: vec![complex("ZOne", vec![el("V", TypeRef::b("string"))])] };
+        if with_between {
+            b.imports.push(Import { ns: z.into(), loc: Some("c.xsd".into()) });
+            b.comps.push(complex("YUsesZ", vec![el("Zed", TypeRef::n(z, "ZOne"))]));
+        }
+        let d = XsdFile { name: "d.xsd".into(), tns: y.into(), prefixes: vec![("own".into(), y.into())], default_ns: None, imports: vec![], comps: vec![complex("YTwo", vec![el("V", TypeRef::b("int"))])] };
+        let mut start = XsdFile { name: "start.xsd".into(), tns: x.into(), prefixes: vec![("p0".into(), x.into()), ("py".into(), y.into())], default_ns: None, imports: vec![], comps: vec![] };
+        let imps = [Import { ns: y.into(), loc: Some("b.xsd".into()) }, Import { ns: y.into(), loc: Some("d.xsd".into()) }];
+        if order == 0 {
+            start.imports.extend(imps);
+        } else {
+            start.imports.extend(imps.into_iter().rev());
+        }
+        start.comps.push(complex("Holder", vec![el("A", TypeRef::n(y, "YOne")), el("B", TypeRef::n(y, "YTwo"))]));
+        let mut files = vec![start, b, d];
+        if with_between {
+            files.push(c);
+        }
+        let mut ctx = BTreeMap::new();
+        ctx.insert("uris", "one-namespace-in-two-files".to_string());
+        ctx.insert("ways", format!("order{order}-between{with_between}"));
+        ctx.insert("count", "3".to_string());
+        spread.push((State { label: format!("one namespace in two imported files, import order {order}, third namespace in between: {with_between}"), depth: 2, set: SchemaSet { files, wsdl: None, start: "start.xsd".into() } }, ctx));
+    }
     // selected 6-sets
     let six: Vec<String> = u[..6].iter().map(|s| s.to_string()).collect();
     push(six.clone(), vec![Way::RootXmlns, Way::RootXmlns, Way::NestedXmlns, Way::TargetOnly, Way::RootXmlns, Way::NestedXmlns], vec![1, 2, 3, 4, 5], "six");
     push(six, vec![Way::RootXmlns, Way::NestedXmlns, Way::RootXmlns, Way::RootXmlns, Way::TargetOnly, Way::RootXmlns], vec![5, 4, 3, 2, 1], "six");
+    out.extend(spread);
     out
 }
 
